@@ -593,3 +593,82 @@ func H_C13_hooks_rlimits_cdi() {
 	vassert(len(injected) == 2 && injected[0] == c1 && injected[1] == c2, "cdi-names")
 	cover("done")
 }
+
+// H_C13_cpu_fields: every CPU field of an adjustment is independent of the others: the spec starts with all
+// seven CPU fields set (arbitrary values); the adjustment names an arbitrary subset of them (each present or
+// not, 128 combinations) with arbitrary values; afterwards every named field carries the requested value and
+// every other one still its old value.
+//verif:property C13
+//verif:expect-cover done
+func H_C13_cpu_fields() {
+	spec := baseSpec()
+	pre := &rspec.LinuxCPU{Shares: u64p(nondetUint64()), Quota: i64p(nondetInt64()), Period: u64p(nondetUint64()),
+		RealtimeRuntime: i64p(nondetInt64()), RealtimePeriod: u64p(nondetUint64()), Cpus: nondetString(), Mems: nondetString()}
+	preShares, preQuota, prePeriod, preRtR, preRtP, preCpus, preMems := *pre.Shares, *pre.Quota, *pre.Period, *pre.RealtimeRuntime, *pre.RealtimePeriod, pre.Cpus, pre.Mems
+	spec.Linux.Resources = &rspec.LinuxResources{CPU: pre}
+	cpu := &nri.LinuxCPU{}
+	vShares, vQuota, vPeriod, vRtR, vRtP := nondetUint64(), nondetInt64(), nondetUint64(), nondetInt64(), nondetUint64()
+	vCpus, vMems := nondetString(), nondetString()
+	assume(vCpus != "")
+	assume(vMems != "")
+	var set [7]bool
+	for i := range set {
+		set[i] = nondetBool()
+	}
+	if set[0] {
+		cpu.Shares = &nri.OptionalUInt64{Value: vShares}
+	}
+	if set[1] {
+		cpu.Quota = &nri.OptionalInt64{Value: vQuota}
+	}
+	if set[2] {
+		cpu.Period = &nri.OptionalUInt64{Value: vPeriod}
+	}
+	if set[3] {
+		cpu.RealtimeRuntime = &nri.OptionalInt64{Value: vRtR}
+	}
+	if set[4] {
+		cpu.RealtimePeriod = &nri.OptionalUInt64{Value: vRtP}
+	}
+	if set[5] {
+		cpu.Cpus = vCpus
+	}
+	if set[6] {
+		cpu.Mems = vMems
+	}
+	g := newGen(spec)
+	err := g.Adjust(&nri.ContainerAdjustment{Linux: &nri.LinuxContainerAdjustment{Resources: &nri.LinuxResources{Cpu: cpu}}})
+	vassert(err == nil, "adjust-error")
+	r := g.Config.Linux.Resources
+	vassert(r != nil && r.CPU != nil, "resources-lost")
+	if err != nil || r == nil || r.CPU == nil {
+		return
+	}
+	c := r.CPU
+	vassert(c.Shares != nil && c.Quota != nil && c.Period != nil && c.RealtimeRuntime != nil && c.RealtimePeriod != nil, "cpu-field-lost")
+	if c.Shares == nil || c.Quota == nil || c.Period == nil || c.RealtimeRuntime == nil || c.RealtimePeriod == nil {
+		return
+	}
+	vassert(*c.Shares == ifU64(set[0], vShares, preShares), "cpu-shares")
+	vassert(*c.Quota == ifI64(set[1], vQuota, preQuota), "cpu-quota")
+	vassert(*c.Period == ifU64(set[2], vPeriod, prePeriod), "cpu-period")
+	vassert(*c.RealtimeRuntime == ifI64(set[3], vRtR, preRtR), "cpu-rtruntime")
+	vassert(*c.RealtimePeriod == ifU64(set[4], vRtP, preRtP), "cpu-rtperiod")
+	vassert(c.Cpus == ifStr(set[5], vCpus, preCpus), "cpu-cpus")
+	vassert(c.Mems == ifStr(set[6], vMems, preMems), "cpu-mems")
+	cover("done")
+}
+
+func ifU64(c bool, a, b uint64) uint64 {
+	if c {
+		return a
+	}
+	return b
+}
+
+func ifI64(c bool, a, b int64) int64 {
+	if c {
+		return a
+	}
+	return b
+}
